@@ -258,6 +258,8 @@ class Interp:
             v = self.val(c[1], env)
             if v is None or isinstance(v, (bool, int, str, frozenset, dict, Counter)):
                 return bool(v)
+            if rooted_at_caught_value(v):
+                return True  # the message of a violated rule is a non-empty string
             if isinstance(v, tuple) and v and v[0] in ("tok", "attr", "index", "result", "valof", "caught", "elt"):
                 return self.oracle("truthy", v)
             return bool(v)
@@ -297,6 +299,12 @@ class Interp:
         if tag == "cut-short":
             return self.oracle("cut-short", self.scope(env))  # a loop left by `break`: some elements are not processed
         raise Cannot(f"condition `{tag}` cannot be interpreted")
+
+
+def rooted_at_caught_value(v) -> bool:
+    while isinstance(v, tuple) and v and v[0] in ("index", "attr") and len(v) > 1:
+        v = v[1]
+    return isinstance(v, tuple) and bool(v) and v[0] == "caught"
 
 
 def syms_in(t, out=None) -> set[str]:
@@ -340,7 +348,7 @@ def semantic_compare(na, ne, fixed: dict | None = None):
         for ch in all_models(syms):
             if fixed and any(ch.get(k, v) != v for k, v in fixed.items()):
                 continue
-            for salt in (0, 1, 2):
+            for salt in range(8):  # eight assignments of the uninterpreted predicates (which rule fails, ...) per model
                 ia, ie = Interp(ch, salt), Interp(ch, salt)
                 a, e = top(ia, na), top(ie, ne)
                 n += 1
